@@ -57,6 +57,21 @@ OBLIGATIONS.append(dict(name="tar_iterator_hostile_sparse_map", harness="harness
     functions=["strm_get_buffered_data, strm_advance_buffer, is_sparse_region (lib/tar/src/iterator.c)"],
     bound="one member of <= 6 bytes real size with an arbitrary sparse map of 1..2 regions (any 64 bit offsets and counts), any record size"))
 
+def pax(n, tiers, timeout=900):
+    return dict(name="tar_pax_framing_n%d" % n, harness="harness/C07_pax.c", sources=["lib/tar/src/cleanup.c", "lib/util/src/parse_int.c", "lib/util/src/hex_decode.c", "lib/util/src/base64_decode.c"],
+        stubs=["stubs/vp_ctype.c"], included_sources=["lib/tar/src/pax_header.c"], incdirs=["lib/tar/src", "."], defines=dict(N=n, FRAMING=1), unwind=n + 4,
+        unwindset={"strcmp.0": 22, "strncmp.0": 20, "strlen.0": 20, "sqfs_xattr_list_free.0": n // 5 + 2, "free_sparse_list.0": n // 3 + 2, "read_pax_header.0": n + 2, "pax_sparse_map.0": n // 4 + 2, "find_handler.0": 16},
+        leak=True, tiers=tiers, timeout=timeout, reach=["parsed", "rejected"],
+        functions=["read_pax_header, find_handler, apply_handler, pax_sparse_map, pax_xattr_libarchive, urldecode (lib/tar/src/pax_header.c)", "parse_uint, parse_int (lib/util/src/parse_int.c)", "hex_decode", "base64_decode", "clear_header"],
+        bound="every PAX record block of exactly %d bytes (all byte values): framing of the length-prefixed records with no key recognised; strtol is a model" % n)
+OBLIGATIONS += [pax(8, ["quick", "thorough"]), pax(10, ["thorough"], 2400)]
+
+OBLIGATIONS.append(dict(name="tar_pax_sparse_map_n5", harness="harness/C07_pax.c", sources=["lib/tar/src/cleanup.c", "lib/util/src/parse_int.c", "lib/util/src/hex_decode.c", "lib/util/src/base64_decode.c"],
+    stubs=["stubs/vp_ctype.c"], included_sources=["lib/tar/src/pax_header.c"], incdirs=["lib/tar/src", "."], defines=dict(N=5, SPARSEMAP=1), unwind=9,
+    unwindset={"free_sparse_list.0": 5, "pax_sparse_map.0": 5, "sqfs_xattr_list_free.0": 2}, leak=True, tiers=["quick", "thorough"], timeout=600, reach=["parsed", "rejected"],
+    functions=["pax_sparse_map (lib/tar/src/pax_header.c)", "parse_uint (lib/util/src/parse_int.c)", "free_sparse_list, clear_header (cleanup.c)"],
+    bound="every NUL terminated map string of up to 5 bytes (all byte values), with or without a map from an earlier record"))
+
 ASSUMPTIONS = ["ctype classification = C locale (stubs/vp_ctype.c)", "path lookup replaced by a symbolic graph (superset of all archives / pack files)"]
 OUTSIDE = ["zlib/xz/zstd/bzip2 on corrupt streams", "glob.c against a real directory"]
 META = dict(
